@@ -333,3 +333,45 @@ func zzH_C18_sync_invalid_request_ban(t *zzT) { zzH_C19_highest_common_block_han
 //zz:quick N=4 B=3
 //zz:thorough N=6 B=5
 func zzH_C18_sync_blocks_request_ban(t *zzT) { zzH_C19_blocks_from_id_handler(t) }
+
+// C19 "… the consecutive blocks that follow a given ID on their own chain, in order and never more than the cap":
+// the cap itself. A chain of 103 + k + D blocks (k = position of the requested block, D = 0..2 blocks beyond the
+// cap): the handler answers with min(103, blocks above the requested one) consecutive blocks starting right above
+// it. (seed C19-9 computed the upper end of the range from height+1: 104 blocks.)
+//
+//zz:opt loop=400 lockdiscipline=off gor=400 steps=80000000 budget=600s
+//zz:stub (*~/pkg/p2p.Connection).BanPeer zzsStubBanPeer
+func zzH_C19_blocks_from_id_cap(t *zzT) {
+	k := t.Range("k", 0, 1)
+	beyond := t.Range("beyond.cap", 0, 2)
+	n := k + 1 + 102 + beyond // blocks above k: 102 + beyond  (101.., 102 < cap, 103 = cap, 104 > cap)
+	if beyond == 2 {
+		n = k + 1 + 104
+	} else if beyond == 1 {
+		n = k + 1 + 103
+	}
+	s, blocks := zzsNode(t, n)
+	w := &zzsWriter{}
+	s.HandleRPCEndpointGetBlocksFromID()(w, &p2p.Request{Data: (&GetBlocksFromIDRequest{ID: blocks[k].Header.ID}).Encode()})
+	t.Assert(zzsBanned == 0 && w.calls == 1 && w.errs == 0 && len(w.data) == 1, "a well-formed request for an own block is answered once")
+	if len(w.data) != 1 {
+		return
+	}
+	resp := &GetBlocksFromIDResponse{}
+	t.Assert(resp.Decode(w.data[0]) == nil, "response decodes")
+	above := n - 1 - k
+	want := above
+	if want > 103 {
+		want = 103
+	}
+	t.Assert(len(resp.Blocks) == want, "the blocks above the requested one, never more than the cap of 103")
+	ok := true
+	for i, b := range resp.Blocks {
+		b.Init()
+		if b.Header.Height != uint32(k+1+i) || !cbytes.Equal(b.Header.ID, blocks[k+1+i].Header.ID) {
+			ok = false
+		}
+	}
+	t.Assert(ok, "consecutive ascending blocks of the node's own chain starting right above the requested one")
+	t.Reach("end")
+}
